@@ -19,8 +19,10 @@ package locRIB
 //   zvC04Step/…Explore  the BFS driver (only user of vh.BFS)
 
 import (
+	"crypto/sha256"
 	"encoding/json"
 	"fmt"
+	"runtime/debug"
 	"sort"
 	"strings"
 	"testing"
@@ -561,7 +563,8 @@ type zvC04Explorer struct {
 	npaths   int
 	opts     [2]zvC04Opt
 	ops      []zvC04Op
-	nontriv  map[string]bool
+	label    string
+	nontriv  map[[16]byte]bool
 	steps    int
 }
 
@@ -683,18 +686,21 @@ func (x *zvC04Explorer) run(hist []zvC04Op, count bool, wantTrace bool) (canon s
 
 	if count {
 		x.coverage(e, last, selBefore)
-		if !x.nontriv[canon] {
+		h := sha256.Sum256([]byte(canon))
+		var hk [16]byte
+		copy(hk[:], h[:16])
+		if !x.nontriv[hk] {
 			for ci := range e.Clients {
 				if e.Reg[ci] && len(e.Clients[ci].Have) > 0 {
-					x.nontriv[canon] = true
+					x.nontriv[hk] = true
 				}
 			}
-			if x.nontriv[canon] {
+			if x.nontriv[hk] {
 				r.Nontrivial(1)
 			}
 		}
 		r.Eval(1)
-		r.Outcome(canon)
+		r.Outcome(x.label + string(hk[:]))
 	}
 	// enabled operations (decided on the observed content, so that an identical
 	// path is never inserted twice: set-vs-multiset semantics is unspecified)
@@ -835,8 +841,9 @@ var zvC04Required = []string{
 }
 
 func (x *zvC04Explorer) explore(maxDepth int) (int, int, bool) {
+	x.label = fmt.Sprintf("%s/%dpaths/%s+%s", x.universe, x.npaths, x.opts[0], x.opts[1])
 	b := vh.BFS[zvC04Op]{R: x.r, MaxDepth: maxDepth, MaxStates: 400000,
-		Label: fmt.Sprintf("%s/%dpaths/%s+%s", x.universe, x.npaths, x.opts[0], x.opts[1]),
+		Label: x.label,
 		Step: func(h []zvC04Op) (string, []zvC04Op, bool) {
 			x.steps++
 			self := x.steps%97 == 1
@@ -887,6 +894,8 @@ func zvC04Items(thorough bool) []zvC04Item {
 func TestVerifC04(t *testing.T) {
 	r := vh.Start(t, "C04")
 	defer r.Finish()
+	// the live heap is tiny and the replays allocate a lot: collect less often
+	defer debug.SetGCPercent(debug.SetGCPercent(1000))
 	r.Rule("per (prefix universe, path alphabet, ordered pair of client options from {best, ecmp, max1..max4}): BFS over all sequences of " +
 		"AddPath/RemovePath/ReplacePath (2 prefixes x {B,E1,E2,W,S[,S2]}), RegisterWithOptions/Unregister/RefreshClient (2 clients), Dispose " +
 		"until the canonical state (Loc-RIB selection per prefix, registered set, accumulated set of every registered client) closes; " +
@@ -899,7 +908,7 @@ func TestVerifC04(t *testing.T) {
 		if c.NPaths == 0 {
 			c.NPaths = 5
 		}
-		x := &zvC04Explorer{r: r, universe: c.Universe, npaths: c.NPaths, opts: c.Opts, ops: zvC04Alphabet(c.NPaths), nontriv: map[string]bool{}}
+		x := &zvC04Explorer{r: r, universe: c.Universe, npaths: c.NPaths, opts: c.Opts, ops: zvC04Alphabet(c.NPaths), nontriv: map[[16]byte]bool{}}
 		for n := 0; n <= len(c.Hist); n++ {
 			_, _, ok, _ := x.run(c.Hist[:n], false, false)
 			if !ok {
@@ -922,7 +931,7 @@ func TestVerifC04(t *testing.T) {
 			r.Cap("time budget: not all instantiations explored")
 			break
 		}
-		x := &zvC04Explorer{r: r, universe: it.universe, npaths: it.npaths, opts: it.opts, ops: zvC04Alphabet(it.npaths), nontriv: map[string]bool{}}
+		x := &zvC04Explorer{r: r, universe: it.universe, npaths: it.npaths, opts: it.opts, ops: zvC04Alphabet(it.npaths), nontriv: map[[16]byte]bool{}}
 		_, _, closed := x.explore(0)
 		closedAll = closedAll && closed
 	}
